@@ -8,6 +8,7 @@ import (
 	"io"
 	"math/big"
 	"sort"
+	"unsafe"
 
 	"verif/refs"
 	"verif/refs/sm2ref"
@@ -56,9 +57,10 @@ func (c *countingReader) Read(p []byte) (int, error) {
 // chain inside a reader does). The buffer is used during the call only. For a library that keeps the buffer it lends
 // to Read in memory the runtime knows about, this reader is indistinguishable from inner.
 type servedReader struct {
-	inner io.Reader
-	depth int // kilobytes of stack the next Read needs on the calling goroutine (doubles up to 4 MB, then stays)
-	Moves int
+	inner  io.Reader
+	depth  int // kilobytes of stack the last Read needed to make the calling goroutine's stack move
+	Moves  int
+	giveUp bool
 }
 
 //go:noinline
@@ -83,14 +85,27 @@ func (s *servedReader) Read(p []byte) (int, error) {
 		n, err := s.inner.Read(p)
 		done <- ans{n, err}
 	}()
+	// recurse deeper and deeper until the stack has really moved (a local of this frame has a new address): the runtime
+	// sizes the initial stack of new goroutines by the recent average, so a fixed depth would not always make it grow
+	var probe byte
+	before := uintptr(unsafe.Pointer(&probe))
 	if s.depth == 0 {
 		s.depth = 64
 	}
-	if s.depth <= 4096 {
-		vxUseStack(s.depth)
-		s.depth *= 2
-		s.Moves++
+	moved := false
+	for d := s.depth; d <= 8192 && !s.giveUp; d *= 2 {
+		vxUseStack(d)
+		if uintptr(unsafe.Pointer(&probe)) != before {
+			s.Moves++
+			s.depth = d
+			moved = true
+			break
+		}
 	}
+	if !moved {
+		s.giveUp = true // 16 MB of stack did not move it any more: later Reads of this call are plain hand-overs
+	}
+	probe++
 	close(start)
 	a := <-done
 	return a.n, a.err
